@@ -430,6 +430,18 @@ def explore(ctx: Ctx, kind: str | None = None, n: int | None = None, rng=None):
             designs.append(d)
     if not designs:
         return
+    # the records of the background VCF in any order (a plain-text VCF is read in file order; the verdict may not depend on it) - except
+    # when two records touch (C06: their relative order is then the one a position-sorted VCF has).  Own generator state.
+    import random
+    from . import c06
+    r_ord = random.Random(f'C15-bg-order-{ctx.seed}-{kind}')
+    for j, d in enumerate(designs):
+        if j % 3 == 1 and len(d.get('bg') or []) > 1 and not c06.touching(d['bg']):
+            if r_ord.random() < 0.5:
+                d['bg'] = list(reversed(d['bg']))
+            else:
+                r_ord.shuffle(d['bg'])
+            d['c15_kind'] = d.get('c15_kind', '?') + '+unsorted'
     jobs = []
     for j, d in enumerate(designs):
         combos = [(False, False), (True, False), (True, True)] + ([(False, True)] if j % 6 == 0 else [])
